@@ -98,11 +98,11 @@ W5fOps == Call("load", {K("RL0",""), K("RL0","d"), K("DL0","d")}) \cup W5fArms \
           NotifyOp({DirE("d")}), EditOp(F("d.a","x"), None)}
 
 (* W6: what is declared non-reloadable (C10; the D7 history) ---------------- *)
-W6Keys == {K("L0","a"), K("L2","a"), K("S0","a"), K("N4","a"), K("AL2","a"), K("AL0","a")}
+W6Keys == {K("L0","a"), K("L2","a"), K("S0","a"), K("N4","a"), K("AL2","a"), K("AL0","a"), K("OL2","a"), K("OL0","a")}
 W6Files == {F("a","x")}
 W6Srcs == {[f \in W6Files |-> CVal(1)]}
 W6Scripts == (K("N4","a") :> <<IRead("a","x")>>)
-W6Ops == Call("load", {K("L0","a"), K("L2","a"), K("N4","a"), K("AL2","a"), K("AL0","a")}) \cup Call("remove", {K("L0","a")}) \cup Call("take", {K("L0","a")})
+W6Ops == Call("load", {K("L0","a"), K("L2","a"), K("N4","a"), K("AL2","a"), K("AL0","a"), K("OL2","a"), K("OL0","a")}) \cup Call("remove", {K("L0","a")}) \cup Call("take", {K("L0","a")})
          \cup {Simple("clear"), Simple("hot_reload"), NotifyOp({FileE("a","x")}), EditOp(F("a","x"), CVal(2)), EditOp(F("a","x"), CVal(3))}
          \cup {[op |-> "goi", k |-> k, n |-> 7] : k \in {K("L0","a"), K("S0","a"), K("L2","a")}}
 
